@@ -462,8 +462,65 @@ def _louvain_chunk(params, lo, hi):
     return r
 
 
+def _louvain_rec(r, nodes, adj, res_):
+    errs, label, nt = judge_louvain(nodes, adj, res_)
+    r["n"] += 1
+    r["outcomes"]["louvain:" + label] += 1
+    if label == "hang":
+        r["counters"]["hangs"] += 1
+    if nt:
+        r["nontrivial"] += 1
+    wit = {"nodes": list(nodes), "adj": adj, "resolution": res_, "labelled": False}
+    for kind, detail in errs:
+        r["violations"].append(viol("louvain", kind, wit, f"louvain(nodes={list(nodes)}, adj={adj}, resolution={res_}): {detail}"))
+    if not r["samples"]:
+        r["samples"].append(dict(wit, function="louvain"))
+
+
+def _louvain_mixed_chunk(params, lo, hi):
+    """n=4: each of the 6 pairs in {absent, listed by u, listed by v, listed by both} (mixed listing multiplicities inside
+    one graph) x 2 node orders x resolution; index = (code*2 + order)*3 + resolution"""
+    pairs = _pairs(4)
+    ress = (0.5, 1.0, 2.0)
+    r = new_result()
+    for idx in range(lo, hi):
+        res_ = ress[idx % 3]
+        k = idx // 3
+        nodes = (0, 1, 2, 3) if k % 2 == 0 else (3, 2, 1, 0)
+        ds = digits(k // 2, 4, len(pairs))
+        adj = [[] for _ in range(4)]
+        for (u, v), d in zip(pairs, ds):
+            if d in (1, 3):
+                adj[u].append(v)
+            if d in (2, 3):
+                adj[v].append(u)
+        _louvain_rec(r, nodes, adj, res_)
+        if len(r["violations"]) >= 40 or r["counters"]["hangs"] >= 2:
+            r["capped"] = True
+            break
+    return r
+
+
+def _louvain_seq_chunk(params, lo, hi):
+    """n=3: neighbour lists are arbitrary sequences of length <=3 (self loops, duplicates, asymmetry) x resolution"""
+    seqs = [()]
+    for k in (1, 2, 3):
+        seqs.extend(itertools.product(range(3), repeat=k))
+    ress = (0.5, 1.0, 2.0)
+    r = new_result()
+    for idx in range(lo, hi):
+        ds = digits(idx // 3, len(seqs), 3)
+        _louvain_rec(r, (0, 1, 2), [list(seqs[d]) for d in ds], ress[idx % 3])
+        if len(r["violations"]) >= 40 or r["counters"]["hangs"] >= 2:
+            r["capped"] = True
+            break
+    return r
+
+
 def jobs(tier, seed):
     js = []
+    js.append(Job("louvain_n4_mixed_listings", 4**6 * 2 * 3, _louvain_mixed_chunk, None, describe="each pair absent / listed by one endpoint / by the other / by both, 2 node orders x resolution {0.5,1,2}"))
+    js.append(Job("louvain_n3_sequences", 40**3 * 3, _louvain_seq_chunk, None, describe="arbitrary neighbour sequences (self loops, duplicates, asymmetry) x resolution {0.5,1,2}"))
     for n in (1, 2, 3, 4, 5):
         js.append(Job(f"structural_n{n}_all_orders", 2 ** len(_pairs(n)) * math.factorial(n) * 2, _simple_chunk, (n, "all"), describe="all simple graphs x all node orders x asc/desc neighbour order: articulation_points, bridges, kcore_decomposition, kcore(k)"))
     js.append(Job("structural_n4_asymmetric", 4**6 * 24, _asym_chunk, 4, describe="each pair absent / listed by one endpoint / by the other / by both, all node orders"))
